@@ -20,6 +20,11 @@ def _seqval(s):
     return (list(str(s)), E.loc(l) if l is not None else [[], "e"], l is not None)
 
 
+def _self_overlaps(blocks):
+    return any(a[0] < b[1] and b[0] < a[1] and a[0] < a[1] and b[0] < b[1]
+               for i, a in enumerate(blocks) for b in blocks[i + 1:])
+
+
 def _events(args):
     locs, G, seed, nchain = args
     setup_repo_import()
@@ -46,7 +51,39 @@ def _events(args):
         bare = E.make_loc(blocks, st)
         cur = Sequence(data, Alphabet[alpha], parent=Parent(id="root", location=bare, sequence=rootseq)
                        if located else None)
+        pool = [cur]
+        taint = {id(cur): _self_overlaps(blocks)}   # lineage: some ancestor sat on a self-overlapping location
+        if G >= 20 and located and rnd.random() < 0.4:
+            # scenario: two SPLICED pieces are concatenated, then both operands are asked again (slice, reverse
+            # complement): an operation leaves its operands as they were
+            half = G // 2
+            try:
+                def piece(lo, hi):
+                    cuts = sorted(rnd.sample(range(lo, hi), 4))
+                    pl = E.make_loc([[cuts[0], cuts[1]], [cuts[2], cuts[3]]], st)
+                    pd = str(pl.reset_parent(Parent(id="root", sequence=rootseq)).extract_sequence())
+                    return Sequence(pd, Alphabet[alpha], parent=Parent(id="root", location=pl, sequence=rootseq))
+
+                lo_piece, hi_piece = piece(0, half), piece(half, G)
+                s1, s2 = (lo_piece, hi_piece) if st == "+" else (hi_piece, lo_piece)
+                p1, p2 = _seqval(s1), _seqval(s2)
+                ev.append(["sop", alpha, list(root), p1[0], p1[1], p1[2], "append", [p2[0], p2[1], p2[2]],
+                           E.outcome(lambda: s1.append(s2), _seqval), False])
+                for sq in (s1, s2):
+                    pq = _seqval(sq)
+                    k = rnd.randrange(1, max(2, len(sq)))
+                    ev.append(["sop", alpha, list(root), pq[0], pq[1], pq[2], "slice", [0, k, 1, False],
+                               E.outcome(lambda: sq[0:k], _seqval), False])
+                    ev.append(["sop", alpha, list(root), pq[0], pq[1], pq[2], "rc", [],
+                               E.outcome(lambda: sq.reverse_complement(), _seqval), False])
+                    pool.append(sq)
+            except Exception:
+                pass
         for _step in range(nchain):
+            # any sequence produced so far may be asked again (also the operands of earlier concatenations): an
+            # operation leaves its operands as they were
+            if len(pool) > 1 and rnd.random() < 0.35:
+                cur = rnd.choice(pool)
             pre = _seqval(cur)
             n = len(cur)
             r = rnd.random()
@@ -65,16 +102,16 @@ def _events(args):
                     key, ar = slice(a, b, 1), [a, b, 1, False]
                 res = []
                 o = E.outcome(lambda: res.append(cur[key]) or res[0], _seqval)
-                ev.append(["sop", alpha, list(root), pre[0], pre[1], pre[2], "slice", ar, o])
+                ev.append(["sop", alpha, list(root), pre[0], pre[1], pre[2], "slice", ar, o, taint.get(id(cur), False)])
             elif r < 0.55:
                 i = rnd.randrange(-n - 1, n + 2)
                 res = []
                 o = E.outcome(lambda: res.append(cur[i]) or res[0], _seqval)
-                ev.append(["sop", alpha, list(root), pre[0], pre[1], pre[2], "index", [i], o])
+                ev.append(["sop", alpha, list(root), pre[0], pre[1], pre[2], "index", [i], o, taint.get(id(cur), False)])
             elif r < 0.75:
                 res = []
                 o = E.outcome(lambda: res.append(cur.reverse_complement()) or res[0], _seqval)
-                ev.append(["sop", alpha, list(root), pre[0], pre[1], pre[2], "rc", [], o])
+                ev.append(["sop", alpha, list(root), pre[0], pre[1], pre[2], "rc", [], o, taint.get(id(cur), False)])
             else:
                 # another located piece: mostly a run that continues 5'->3', sometimes anything
                 cl = cur.location_on_parent
@@ -88,6 +125,9 @@ def _events(args):
                             e0 = rnd.randrange(0, cl.start + 1)
                             s0 = rnd.randrange(0, e0 + 1)
                         ol = E.make_loc([[s0, e0]], cl.strand.to_symbol())
+                        if e0 - s0 >= 3 and rnd.random() < 0.5:  # a spliced (two-block) continuation
+                            m0 = rnd.randrange(s0 + 1, e0 - 1)
+                            ol = E.make_loc([[s0, m0], [m0 + 1, e0]], cl.strand.to_symbol())
                     else:
                         s0 = rnd.randrange(0, G + 1)
                         ol = E.make_loc([[s0, rnd.randrange(s0, G + 1)]], rnd.choice("+-"))
@@ -100,14 +140,30 @@ def _events(args):
                                          if located else None)
                 except Exception:
                     other = None
+                if len(pool) > 1 and rnd.random() < 0.3:
+                    # an operand that is itself the result of earlier operations (multi-block), of the same parent shape
+                    cand = rnd.choice(pool)
+                    try:
+                        same_shape = (cand.parent is None and cur.parent is None) or (
+                            cand.parent is not None and cur.parent is not None
+                            and cur.parent.equals_except_location(cand.parent)
+                            and (cand.parent.location is None) == (cur.parent.location is None))
+                    except Exception:
+                        same_shape = False
+                    if same_shape:
+                        other = cand
                 if other is None:
                     continue
                 ov = _seqval(other)
                 res = []
                 o = E.outcome(lambda: res.append(cur.append(other)) or res[0], _seqval)
-                ev.append(["sop", alpha, list(root), pre[0], pre[1], pre[2], "append", [ov[0], ov[1], ov[2]], o])
+                ev.append(["sop", alpha, list(root), pre[0], pre[1], pre[2], "append", [ov[0], ov[1], ov[2]], o,
+                           taint.get(id(cur), False) or taint.get(id(other), False)])
             if res:
+                t_new = taint.get(id(cur), False) or (r >= 0.75 and other is not None and taint.get(id(other), False))
                 cur = res[0]
+                taint[id(cur)] = bool(t_new)
+                pool.append(cur)
     return ev
 
 
@@ -135,6 +191,10 @@ def run(chk):
 
     big = _random_locs(rnd, 300 if quick else 4000, 400, 6)
     parts = pmap(_events, [(big[i::16], 400, chk.seed * 617 + i, 3) for i in range(16)])
+    evs += [e for p in parts for e in p]
+    # longer chains on a mid-size root: room for spliced operands, and for asking earlier operands again
+    mid = _random_locs(rnd, 900 if quick else 8000, 30, 3)
+    parts = pmap(_events, [(mid[i::16], 30, chk.seed * 619 + i, 9) for i in range(16)])
     evs += [e for p in parts for e in p]
     # leg S: the calls the repository's own tests make, judged with the same clauses
     evs += suite_events(chk, "C03Trace")
